@@ -8,7 +8,7 @@ class InlineComment(internal.SingleValueRawTokenModel[str]):
 
     @classmethod
     def _parse_value(cls, raw_text: str) -> str:
-        return raw_text.removeprefix(';').lstrip(' ')
+        return raw_text.removeprefix(';').removeprefix(' ')
 
     @classmethod
     def _format_value(cls, value: str) -> str:
